@@ -234,6 +234,10 @@ func (p *Prog) generateOne(fn *ssa.Function, sp *spec.FuncSpec, splits []splitVa
 	}
 	vc.noSafety = sp.NoSafety
 	vc.typedPtrs = sp.TypedPtrs
+	vc.reveal = map[string]bool{}
+	for _, r := range sp.Reveal {
+		vc.reveal[r] = true
+	}
 	tt := vc.tt
 	vc.cmd("(declare-const alloc0 Int)")
 	vc.cmd(fmt.Sprintf("(assert (>= alloc0 %d))", maxGlobals))
